@@ -14,6 +14,12 @@ def wordsOf (a : List String) : Option (List Bytes) := a.mapM (fun w => if w.isE
 def vmStr : Model.VErr → String
   | .exit1 m => if m.startsWith "UNMODELLED" then m else "EXIT1"
   | .abnormal k => s!"ABNORMAL:{k}"
+  | .exc _ => "EXIT1"        -- every tool's main catches std::exception, prints it and returns 1
+
+/-- the harness command VALUE constructs the value itself: an exception is reported as such -/
+def vmStrRaw : Model.VErr → String
+  | .exc w => s!"UNCAUGHT {w}"
+  | e => vmStr e
 
 def cmdBtcc (spec : Bool) (a : List String) : String :=
   match wordsOf a with
@@ -34,19 +40,19 @@ def typeName : Model.VType → String
 def cmdValue (a : List String) : String :=
   match wordsOf a with
   | some [text] | some (text :: _) =>
-    match Model.valueOf vcx (text.length + 4) text text.length with
-    | .error e => vmStr e
+    match Model.valueOf vcx Model.valueDepthLimit text text.length with
+    | .error e => vmStrRaw e
     | .ok v =>
       let base := s!"OK {typeName v.type} data={toHex v.dataValue} hex={Model.strOfBytes v.hexStr}"
       if v.type == .T_STRING then base
       else match v.intValue with
         | .ok i => base ++ s!" int={i}"
-        | .error e => vmStr e
+        | .error e => vmStrRaw e
   | some [] =>
-    match Model.valueOf vcx 4 [] 0 with
-    | .error e => vmStr e
+    match Model.valueOf vcx Model.valueDepthLimit [] 0 with
+    | .error e => vmStrRaw e
     | .ok v => s!"OK {typeName v.type} data={toHex v.dataValue} hex={Model.strOfBytes v.hexStr}" ++
-        (if v.type == .T_STRING then "" else match v.intValue with | .ok i => s!" int={i}" | .error e => " " ++ vmStr e)
+        (if v.type == .T_STRING then "" else match v.intValue with | .ok i => s!" int={i}" | .error e => " " ++ vmStrRaw e)
   | none => "bad-op"
 
 end Driver
